@@ -69,6 +69,10 @@ func (s LangSpec) Build() Language { return Language{Code: s.Code, Name: s.Name}
 
 // Shared lets records with the same non-zero key be one in-memory record
 // referenced from several parents (the usual `c := &Company{…}; users := []User{{Company: c}, {Company: c}}`).
+// Only the argument records themselves share (their Company and their Friends):
+// gorm de-duplicates the records of one relation of one save batch by key; a
+// record that is also reachable through a nested association is upserted again
+// by that association's own pipeline, with its own hook cycle.
 type Shared struct {
 	Companies map[uint]*Company
 	Friends   map[uint]*User
@@ -91,7 +95,7 @@ func (s *UserSpec) BuildShared(sh *Shared) *User {
 			sh.Companies[u.Company.ID] = u.Company
 		}
 	}
-	u.Manager = s.Manager.BuildShared(sh)
+	u.Manager = s.Manager.BuildShared(nil)
 	u.Account = s.Account.Build()
 	for _, p := range s.Pets {
 		u.Pets = append(u.Pets, p.Build())
@@ -100,13 +104,13 @@ func (s *UserSpec) BuildShared(sh *Shared) *User {
 		u.Toys = append(u.Toys, t.Build())
 	}
 	for i := range s.Team {
-		u.Team = append(u.Team, *s.Team[i].BuildShared(sh))
+		u.Team = append(u.Team, *s.Team[i].BuildShared(nil))
 	}
 	for _, l := range s.Languages {
 		u.Languages = append(u.Languages, l.Build())
 	}
 	for i := range s.Friends {
-		f := s.Friends[i].BuildShared(sh)
+		f := s.Friends[i].BuildShared(nil)
 		if sh != nil && f.ID != 0 {
 			if g, ok := sh.Friends[f.ID]; ok {
 				f = g
